@@ -58,6 +58,7 @@ func Exec(c Case, cap time.Duration) (o Outcome) {
 	// randseednop=0: math/rand.Seed works again (the main module says go 1.25, which would make it a
 	// no-op), so the inputs the workloads draw from math/rand are the same in every run of a case.
 	cmd.Env = append(os.Environ(), "GOMAXPROCS=2", "GOGC=50", "GODEBUG=randseednop=0")
+	cmd.Env = append(cmd.Env, c.Env...) // os/exec keeps the last value of a duplicated key
 	err = cmd.Run()
 	logf.Close()
 	logData, _ := os.ReadFile(lf)
